@@ -747,3 +747,29 @@ func retUnderOk(rets []retInfo, t ssa.Value, idx int, err string) bool {
 	}
 	return false
 }
+
+// chanReceives: g receives from its receiver/first parameter (ChannelQueue.Poll/Take/TakeWithTimeout).
+func chanReceives(g *ssa.Function) bool {
+	if len(g.Params) == 0 {
+		return false
+	}
+	if _, ok := g.Params[0].Type().Underlying().(*types.Chan); !ok {
+		return false
+	}
+	found := false
+	core.Instrs(g, func(ins ssa.Instruction) {
+		switch x := ins.(type) {
+		case *ssa.UnOp:
+			if x.Op == token.ARROW && chanOf(x.X) == ssa.Value(g.Params[0]) {
+				found = true
+			}
+		case *ssa.Select:
+			for _, st := range x.States {
+				if st.Dir == types.RecvOnly && chanOf(st.Chan) == ssa.Value(g.Params[0]) {
+					found = true
+				}
+			}
+		}
+	})
+	return found
+}
